@@ -205,7 +205,7 @@ const UNITS_UNKNOWN: &[&str] = &["pinch", "cloves", "sprigs", "big handfuls", "c
 const TEXT_VALUES: &[&[&str]] = &[&["some"], &["a", "pinch"], &["to", "taste"], &["half", "a", "dozen"], &["few"]];
 /// text values that begin with a number: only generated together with a `%unit`, because without `%`
 /// ADVANCED_UNITS documents `{1 scant}` as value 1 + unit `scant`
-const TEXT_VALUES_NUMLEAD: &[&[&str]] = &[&["1", "scant"], &["2", "heaped"], &["3", "or", "4"], &["1/2", "a"], &["1.5", "level"], &["2-3", "big"], &["1", "1/2", "heaped"], &["2", "1/2", "or", "so"], &["1", "/", "2", "a", "b"]];
+const TEXT_VALUES_NUMLEAD: &[&[&str]] = &[&["1", "scant"], &["2", "heaped"], &["3", "or", "4"], &["1/2", "a"], &["1.5", "level"], &["2-3", "big"], &["1", "1/2", "heaped"], &["2", "1/2", "or", "so"], &["1", "/", "2", "a", "b"], &["1,000"], &["2,3"], &["4,06"], &["1,5"], &["0,5", "or", "so"]];
 /// canonical parser only (no ADVANCED_UNITS there): a number followed by words without `%` is one text value
 const TEXT_VALUES_SPACED_UNIT: &[&[&str]] = &[&["2", "1/2", "cups"], &["1", "kg"], &["3", "big", "ones"], &["1", "1/2", "(heaped)", "tbsp"]];
 const NOTE_WORDS: &[&str] = &["finely", "chopped", "sifted", "room", "temperature", "large", "peeled", "crème", "~200", "#10", "@home", "50%", "a|b"];
